@@ -438,6 +438,10 @@ Finalize(lexLen) ==
   /\ UNCHANGED <<exists, frames, hdl, snap, dirty, pins, noAuto, cpe, acked>>
   /\ last' = Obs("finalize", "ok", 0)
 
+\* calls that change something kept next to the frames (logic mesh ...): the handle is dirty, the next commit writes it
+Touch(op) == /\ hdl = "rw" /\ dirty' = TRUE /\ last' = Obs(op, "ok", 0)
+             /\ UNCHANGED <<exists, frames, pend, wal, hdl, snap, pins, noAuto, ticket, cpe, acked>>
+
 \* reads never change anything
 Read(op) == /\ hdl # "none" /\ last' = Obs(op, "ok", 0)
             /\ UNCHANGED <<exists, frames, pend, wal, hdl, snap, dirty, pins, noAuto, ticket, cpe, acked>>
